@@ -425,6 +425,15 @@ def end_of_input_cases():
         ('--- a\n...', doc([S('a')], True)),
         ('a\n---', [('SS',), ('DS', False), S('a'), ('DE',), ('DS', True), N, ('DE',), ('SE',)]),
     ]
+    # keys of flow mappings are not limited to 1024 characters, and may be separated from their ':' by anything
+    for n in (1020, 1023, 1024, 1025, 1026, 1030, 1100, 2048, 5000):
+        k = 'k' * n
+        cases.append(('{ "' + k + '": v, a: b }\n', doc([MP, ('SC', 0, None, 'D', k), S('v'), S('a'), S('b'), MPE])))
+        cases.append(('{' + k + ': v}\n', doc([MP, S(k), S('v'), MPE])))
+        cases.append(("- {'" + k + "' : [x]}\n", doc([SQ, MP, ('SC', 0, None, 'S', k), SQ, S('x'), SQE, MPE, SQE])))
+        cases.append(('top:\n  {\n    key\n    # ' + 'c' * n + '\n    : value,\n    other: x\n  }\n',
+                      doc([MP, S('top'), MP, S('key'), S('value'), S('other'), S('x'), MPE, MPE])))
+        cases.append(('{ key' + ' ' * n + ': v }\n', doc([MP, S('key'), S('v'), MPE])))
     return cases
 
 
@@ -544,6 +553,13 @@ def fold_family(style, cont_indent):
         for blank in ('', ind):
             joins.append((trail + '\n' + blank + '\n' + ind, '\n'))
         joins.append((trail + '\n\n' + ind + '\n' + ind, '\n\n'))
+    if style == 'D':
+        # an escaped break joins the lines without a space; blanks before the backslash are content; empty lines
+        # after it are line feeds of their own
+        for trail in ('', ' ', '\t'):
+            joins.append((trail + '\\\n' + ind, trail))
+            joins.append((trail + '\\\n\n' + ind, trail + '\n'))
+            joins.append((trail + '\\\n' + ind + '\n\n' + ind, trail + '\n\n'))
     q = {'P': '', 'S': "'", 'D': '"'}[style]
     for j1 in joins:
         for j2 in joins:
